@@ -2646,7 +2646,7 @@ func lemmaForwardSession(raw *rawEnvelope) (e *Session, e3 *Session, accepted bo
 //@   props C04 C05 C06
 //@   trusted reconnect loop (retries with back-off, lock channel, concurrent listener): only the shape of its result is used - a channel whose tables exist, or an error
 //@   requires c != nil
-//@   modifies everything
+//@   modifies c.channel, recvClock  ## what a caller may see change: the published channel (and, through buildChannel, the receive clock); objects it allocates or closes are its own. The callers below rely on nothing else staying unchanged except their own parameters and locals
 //@   ensures result1 == nil ==> result0 != nil && result0.channel != nil && result0.channel.processingCmds != nil
 //@   ensures result1 != nil ==> result0 == nil
 
